@@ -12,7 +12,7 @@ pub struct C06;
 struct Tally {
     calls: u64,
     histories: u64,
-    term: [u64; 4],
+    term: [u64; 5],
     flag_after_term: u64,
     idle_bs: u64,
     nonempty_implies_flag: u64,
@@ -24,7 +24,7 @@ struct Tally {
     pending_at_term: u64,
     typed_desync_at_term: u64,
 }
-const TERMS: [&str; 4] = ["commit", "finish", "ctrl_backspace", "backspace_to_empty"];
+const TERMS: [&str; 5] = ["commit", "finish", "ctrl_backspace", "backspace_to_empty", "commit_other_index"];
 
 fn flush(t: &Tally, out: &mut Out) {
     out.count("evaluations", t.calls);
@@ -91,7 +91,11 @@ fn hist_json(h: &Hist, files: &UserFiles) -> Value {
 fn concrete(ex: &Exec, e: &Ev) -> Option<Ev> {
     Some(match e {
         Ev::Commit(i) if *i >= usize::MAX - 1 => match &ex.screen {
-            Some(rs) if rs.commit_len() > 0 => Ev::Commit((ex.highlight as usize).min(rs.commit_len() - 1)),
+            Some(rs) if rs.commit_len() > 0 => {
+                let h = (ex.highlight as usize).min(rs.commit_len() - 1);
+                // usize::MAX = the highlighted index; usize::MAX - 1 = another valid index (a learning commit)
+                Ev::Commit(if *i == usize::MAX { h } else { (h + 1) % rs.commit_len() })
+            }
             _ => return None,
         },
         Ev::Key(k, m, 0xFF) => Ev::Key(*k, *m, ex.highlight),
@@ -144,8 +148,9 @@ fn run_prefix(used: &mut Exec, h: &Hist, files: &UserFiles, out: &mut Out, t: &m
     // terminator
     t.term[h.term] += 1;
     match h.term {
-        0 => {
-            let Some(e) = concrete(used, &Ev::Commit(usize::MAX)) else {
+        0 | 4 => {
+            let placeholder = if h.term == 0 { usize::MAX } else { usize::MAX - 1 };
+            let Some(e) = concrete(used, &Ev::Commit(placeholder)) else {
                 // nothing on screen: fall back to finish
                 t.calls += 1;
                 return used.apply(&Ev::Finish).result.is_ok() && flag_false(used, h, files, "finish", out, t);
@@ -154,7 +159,9 @@ fn run_prefix(used: &mut Exec, h: &Hist, files: &UserFiles, out: &mut Out, t: &m
             if used.apply(&e).result.is_err() {
                 return false;
             }
+            // the candidate window is gone after a commit: nothing on screen, nothing highlighted
             used.screen = None;
+            used.highlight = 0;
         }
         1 => {
             t.calls += 1;
@@ -280,6 +287,30 @@ fn check_with_true_fresh(h: &Hist, files: &UserFiles, root: &std::path::Path, ou
     }
 }
 
+/// Replay the whole life of a used context (concrete events) on a new context over the files it started from,
+/// then compare the continuation with a truly new context.
+fn confirm_with_life(h: &Hist, files_at_creation: &UserFiles, life: &[Ev], root: &std::path::Path, out: &mut Out, t: &mut Tally) {
+    files_at_creation.install(root);
+    let Ok(mut used) = Exec::new(h.spec, root) else { return };
+    for e in life {
+        if used.dead {
+            return;
+        }
+        t.calls += 1;
+        used.apply(e);
+    }
+    let Ok(mut fresh) = Exec::new(h.spec, root) else { return };
+    t.true_fresh += 1;
+    if let Some((i, a, b)) = compare_cont(&mut used, &mut fresh, &h.cont, t) {
+        let method = if h.spec.lay.is_fixed() { "fixed" } else { "phonetic" };
+        let what = leak_kind(&a, &b);
+        let case = json!({"cfg": h.spec.to_json(), "user_files": files_at_creation.to_json(), "life_of_the_used_context": evs_to_json(life),
+                          "terminator": TERMS[h.term], "continuation": evs_to_json(&h.cont)});
+        out.violation("behaves-like-new-context", format!("c06:continuation-differs:{method}:after-{}:{what}", TERMS[h.term]), case,
+                      format!("continuation event {i} renders as in a newly created context: {b}"), format!("{a} (after {} earlier events in this context)", life.len()));
+    }
+}
+
 /// coarse description of how the two renderings differ (for the signature)
 fn leak_kind(used: &str, fresh: &str) -> &'static str {
     if used.contains("panic") != fresh.contains("panic") {
@@ -300,9 +331,9 @@ impl Prop for C06 {
         "C06"
     }
     fn rule(&self) -> String {
-        "random histories over three layouts and random options (suggestions on 3/4, English on 1/2): a prefix of 1-10 events (all 111 keys, AltGr, backspaces, earlier words) ending in each of the four terminators \
-         (commit of the highlighted index, finish, ctrl-backspace on a non-empty composition, plain backspaces until one returns an empty suggestion), then a continuation of 1-12 events replayed in the used context and in a reference context. \
-         The reference is a second context over the same user directory whose method object is re-created before each comparison by update_engine to another layout and back; every mismatch is re-checked from scratch against a truly new context before it is reported, \
+        "random histories over three layouts and random options (suggestions on 3/4, English on 1/2): a prefix of 1-10 events (all 111 keys, AltGr, backspaces, earlier words) ending in each of the terminators \
+         (commit of the highlighted index, commit of another index, finish, ctrl-backspace on a non-empty composition, plain backspaces until one returns an empty suggestion), then a continuation of 1-12 events replayed in the used context and in a reference context. \
+         The reference is a second context over the same user directory whose method object is re-created before each comparison by update_engine to another layout and back; every mismatch is re-checked from scratch (the whole life of the used context is replayed on a new context, then the continuation is compared with a truly new context) before it is reported, \
          and one history in 8 (quick) / 4 (thorough) uses a truly new context directly. Flag clauses are judged on every event. distinct_nontrivial = distinct (configuration, terminator, hook state at the terminator) triples followed by a compared continuation."
             .into()
     }
@@ -318,7 +349,7 @@ impl Prop for C06 {
     }
     fn minima(&self, _tier: Tier) -> Vec<(&'static str, u64)> {
         vec![
-            ("terminator.commit", 1_500), ("terminator.finish", 1_500), ("terminator.ctrl_backspace", 1_000), ("terminator.backspace_to_empty", 1_500), ("continuations_compared", 6_000),
+            ("terminator.commit", 1_500), ("terminator.commit_other_index", 1_500), ("terminator.finish", 1_500), ("terminator.ctrl_backspace", 1_000), ("terminator.backspace_to_empty", 1_500), ("continuations_compared", 6_000),
             ("continuations_against_truly_new_context", 500), ("idle_backspace_checked", 500), ("terminated_while_sign_pending", 50), ("terminated_with_raw_keys_out_of_step", 100),
             ("nonempty_preedit_implies_flag_checked", 20_000),
         ]
@@ -361,7 +392,7 @@ impl Prop for C06 {
         ];
         let mut n = 0usize;
         for (lay, opts, pre) in &targeted {
-            for term in 0..4 {
+            for term in 0..5 {
                 let mine = env.mine(n);
                 n += 1;
                 if !mine {
@@ -383,10 +414,12 @@ impl Prop for C06 {
         let mut hno = 0usize;
         for _ in 0..ncfg {
             let spec = random_spec(&mut rng);
+            let mut files_at_creation = snapshot(&root);
             let (Ok(mut used), Ok(mut reference)) = (Exec::new(spec, &root), Exec::new(spec, &root)) else {
                 files0.install(&root);
                 continue;
             };
+            used.keep_log = true;
             for _ in 0..per {
                 hno += 1;
                 t.histories += 1;
@@ -401,7 +434,7 @@ impl Prop for C06 {
                 for _ in 0..rng.range(1, 10) {
                     prefix.push(if rng.chance(1, 6) { Ev::Bs } else { random_key(&mut rng, &allkeys, &common) });
                 }
-                let term = rng.below(4);
+                let term = rng.below(5);
                 let mut cont: Vec<Ev> = vec![];
                 for _ in 0..rng.range(1, 12) {
                     cont.push(if rng.chance(1, 8) { Ev::Bs } else { random_key(&mut rng, &allkeys, &common) });
@@ -416,10 +449,12 @@ impl Prop for C06 {
                 }
                 let alive = run_prefix(&mut used, &h, &files, out, &mut t);
                 if used.dead {
+                    files_at_creation = snapshot(&root);
                     match Exec::new(spec, &root) {
                         Ok(e) => used = e,
                         Err(_) => break,
                     }
+                    used.keep_log = true;
                     continue;
                 }
                 if !alive {
@@ -435,6 +470,7 @@ impl Prop for C06 {
                 let st = used.sess.state();
                 out.distinct(fnv_str(&[&spec.short(), TERMS[term], &st.to_string()]));
                 t.continuations += 1;
+                let life_len = used.log.len();
                 let diff = compare_cont(&mut used, &mut reference, &h.cont, &mut t);
                 let _ = used.apply(&Ev::Finish);
                 let _ = reference.apply(&Ev::Finish);
@@ -442,15 +478,18 @@ impl Prop for C06 {
                     out.sample(hist_json(&h, &files));
                 }
                 if diff.is_some() {
-                    // confirm from scratch with a truly new context; only that verdict counts
+                    // confirm from scratch: replay the whole life of the used context on a new one, then compare the
+                    // continuation with a truly new context; only that verdict counts
                     t.confirmed_with_true_fresh += 1;
-                    check_with_true_fresh(&h, &files, &root2, out, &mut t);
+                    confirm_with_life(&h, &files_at_creation, &used.log[..life_len], &root2, out, &mut t);
                 }
                 if used.dead {
+                    files_at_creation = snapshot(&root);
                     match Exec::new(spec, &root) {
                         Ok(e) => used = e,
                         Err(_) => break,
                     }
+                    used.keep_log = true;
                 }
             }
         }
@@ -459,6 +498,14 @@ impl Prop for C06 {
     fn replay(&self, env: &Env, case: &Value, out: &mut Out) {
         let Some(spec) = case.get("cfg").and_then(CfgSpec::from_json) else { return };
         let files = case.get("user_files").map(UserFiles::from_json).unwrap_or_default();
+        if let (Some(life), Some(cont)) = (case.get("life_of_the_used_context").and_then(evs_from_json), case.get("continuation").and_then(evs_from_json)) {
+            let term = TERMS.iter().position(|t| Some(*t) == case.get("terminator").and_then(|t| t.as_str())).unwrap_or(1);
+            let h = Hist { spec, prefix: vec![], term, cont };
+            let mut t = Tally::default();
+            confirm_with_life(&h, &files, &life, &env.root("c06"), out, &mut t);
+            flush(&t, out);
+            return;
+        }
         let (Some(prefix), Some(cont)) = (case.get("prefix").and_then(evs_from_json), case.get("continuation").and_then(evs_from_json)) else { return };
         let term = TERMS.iter().position(|t| Some(*t) == case.get("terminator").and_then(|t| t.as_str())).unwrap_or(1);
         let h = Hist { spec, prefix, term, cont };
